@@ -117,8 +117,9 @@ impl Worksheet {
     }
 
     pub fn set_column_style(&mut self, column: i32, style_index: i32) -> Result<(), String> {
+        // the width a hidden column reports is 0: keep the width it will have when shown again
         let width = self
-            .get_column_width(column)
+            .get_actual_column_width(column)
             .unwrap_or(constants::DEFAULT_COLUMN_WIDTH);
         let hidden = self.is_column_hidden(column)?;
         self.set_column_width_and_style(column, width, hidden, Some(style_index))
@@ -203,7 +204,7 @@ impl Worksheet {
                 width,
                 custom_width,
                 style: None,
-                hidden: false,
+                hidden: cols[index].hidden,
             };
             let post = Col {
                 min: column + 1,
@@ -217,7 +218,7 @@ impl Worksheet {
             if column != max {
                 cols.insert(index, post);
             }
-            if custom_width {
+            if custom_width || col.hidden {
                 cols.insert(index, col);
             }
             if column != min {
@@ -515,7 +516,6 @@ impl Worksheet {
                 style: cols[index].style,
                 hidden: cols[index].hidden,
             };
-            col.style = cols[index].style;
             cols.remove(index);
             if column != max {
                 cols.insert(index, post);
